@@ -924,7 +924,7 @@ impl<'fds, 'body: 'fds> MessageBodyParser<'body> {
                 self.buf_idx,
             );
 
-            let sig = &crate::signature::Type::parse_description(sig_str).unwrap()[0];
+            let sig = &crate::signature::Type::parse_description(sig_str)?[0];
 
             match crate::wire::unmarshal::container::unmarshal_with_sig(sig, &mut ctx) {
                 Ok(res) => {
